@@ -22,6 +22,9 @@ CHECKS = {
  "C15": dict(engine="modsim", technique=TECH+"seeded edit/evaluate/cancel histories on one long-lived VM against a brand-new VM with the current sources after every evaluation (refinement), evaluation counter per (module, version) and epoch, cancellation injected at debug-hook yields, hang = pending with no wake-up",
    text="Seeded exploration of module edit histories (value/type changes, import edges, cycles, type/parse/run-time errors in dependencies, add_module vs load_script, cancelled evaluations): every evaluation outcome equals a fresh VM's, reported cycles lie on a cycle of the current import graph, no module body runs twice between two edits, nothing hangs.",
    note="Trusted: the fresh VM is the reference; error message text is not compared (C16), only error class and cycle membership.", ref="DESIGN.md §4 C15"),
+ "C16": dict(engine="detsim", technique=TECH+"history/order/thread/schedule/address/process perturbation of the environment in which one subject is compiled and run; byte-for-byte differential of (value, type text, diagnostics text); tape-controlled variants replay exactly, cross-process variant re-checked over fresh processes",
+   text="Seeded exploration: the observation of a generated subject (well typed, ill typed or unparsable; with inline modules) must be byte-identical on a fresh VM, after a generated history of unrelated work, after the permuted history, on a second VM, on a child thread, under forced collections, after heap padding and in a freshly spawned process.",
+   note="Trusted: process-level randomness (hasher keys, ASLR) is only varied by spawning fresh processes, it cannot be seeded.", ref="DESIGN.md §4 C16"),
  "C17": dict(engine="corosim", technique=TECH+"the simulator schedules gluon coroutines (generated resume order) and, in the multi-thread class, polls several gluon threads and fires host futures in tape order; observation log checked operation by operation against an executable reference model; hang = pending with no runnable task",
    text="Seeded exploration of coroutine interleavings and fault placements (failing thunks, self-dependent lazies, resume of dead threads, empty receives, forced collections). Every observation made through the harness extern function is compared with an executable model of channels (FIFO, exactly once, non-blocking), references (last store wins) and lazies (at most once, same value, error not hang).",
    note="Trusted: the executable model (about 300 lines) encodes the documented contracts; behaviour the property does not specify (resuming a coroutine that died, program-level deadlock) is excluded by the generator.", ref="DESIGN.md §4 C17"),
@@ -39,7 +42,7 @@ NA = {
  "C19":"immutable single-threaded library code; operation sequences are inputs to pure functions",
  "C20":"pure function of (program, cursor offset)",
 }
-PLANNED = {"C14":"threadsim","C16":"detsim"}
+PLANNED = {"C14":"threadsim",}
 
 def commits():
     out = subprocess.run(["git","-C","/repo","log","--format=%h %s"],capture_output=True,text=True).stdout
